@@ -2,8 +2,8 @@
 """C02 -- named interval constructors, semitone measure, consonance (DESIGN.md section 4, C02).
 
 * constructors: product  (names(k) + homogeneous runs of up to kl accidentals) x 17 constructors  on
-  the real mingus.core.intervals, each result
-  checked against the letter / pitch-class arithmetic of mc.ref.pitch + mc.ref.ivl;
+  the real mingus.core.intervals, each result checked against the letter / pitch-class arithmetic
+  of mc.ref.pitch + mc.ref.ivl;
 * closure: explicit-state bfs over names with the 14 non-unison constructors as transition
   functions, run to the fix-point (the +-6 normalisation makes the reachable set finite); all 17
   constructors (so also the three unison ones, whose own closure is unbounded) are then applied
